@@ -308,3 +308,130 @@ Print Assumptions C15_kernel_inside_refines_model.
 (* [flat] is the row-major (n, 2) buffer *)
 Example C15_kernel_flat : flat [(1, 2); (3, 4)] = [1; 2; 3; 4].
 Proof. reflexivity. Qed.
+
+(* ================================================================== *)
+(* C15 ITSELF on the regenerated program: the even-odd rule transported *)
+(* to exec_fun RR XRR program "c_inside" (Proofs/KernelPolygon.v), for *)
+(* every bounding box that contains the vertices (box_contains).      *)
+(* ================================================================== *)
+From Coq Require Import String Lia PrimFloat.
+From Hy Require Import Base.Num Base.MiniC Gen.KernelsAst Gen.Consts Gen.ConstsC15 Model.Grid Model.Polygon.
+From Hy Require Proofs.KernelPolygon.
+Import ListNotations.
+Open Scope string_scope.
+Open Scope list_scope.
+Open Scope Z_scope.
+
+(* run_inside = the execution of the translated c_inside *)
+Theorem C15_kernel_run_inside :
+  forall (n : nat) (nprint : Z) (atol xl0 xl1 yl0 yl1 : R) (poly pts : list (R * R))
+         (ins : list Z),
+       KernelPolygon.run_inside n nprint atol xl0 xl1 yl0 yl1 poly pts ins =
+       exec_fun RR XRR program (S n) "c_inside"
+         [AVI nprint; AVI (zlen pts); AVArrF (RefinePolygon.flat pts); 
+          AVI (zlen poly); AVArrF (RefinePolygon.flat poly); AVF atol; 
+          AVArrF [xl0; xl1]; AVArrF [yl0; yl1]; AVArrI ins].
+Proof. exact @KernelPolygon.run_inside_is_exec. Qed.
+Print Assumptions C15_kernel_run_inside.
+
+(* the extent computed by the wrapper is a box containing every vertex *)
+Theorem C15_kernel_extent_is_a_containing_box :
+  forall (poly : list (R * R)) (xl0 xl1 yl0 yl1 : R),
+       extent RR poly = Some (xl0, xl1, (yl0, yl1)) ->
+       KernelPolygon.box_contains xl0 xl1 yl0 yl1 poly.
+Proof. exact @KernelPolygon.kernel_inside_extent_box. Qed.
+Print Assumptions C15_kernel_extent_is_a_containing_box.
+
+(* good_poly polygon (convex or not, self-intersecting or not), any containing box, any points, zero-filled inside vector: the array returned by the translated kernel holds 1 where the crossing number is odd and 0 where it is even *)
+Theorem C15_kernel_inside_is_crossing_parity :
+  forall (nprint : Z) (atol xl0 xl1 yl0 yl1 : R) (poly pts : list (R * R)) (n : nat),
+       poly <> [] ->
+       PolygonProofs.good_poly atol poly ->
+       KernelPolygon.box_contains xl0 xl1 yl0 yl1 poly ->
+       (Datatypes.length pts < n)%nat ->
+       (Datatypes.length poly < n)%nat ->
+       KernelPolygon.run_inside n nprint atol xl0 xl1 yl0 yl1 poly pts
+         (repeat 0 (Datatypes.length pts)) =
+       Ok
+         (RI 0,
+          [VArrF (RefinePolygon.flat pts); VArrF (RefinePolygon.flat poly); 
+           VArrF [xl0; xl1]; VArrF [yl0; yl1];
+           VArrI
+             (map
+                (fun p : R * R => if Nat.odd (PolygonProofs.crossing_number poly p) then 1 else 0)
+                pts)]).
+Proof. exact @KernelPolygon.kernel_inside_is_crossing_parity. Qed.
+Print Assumptions C15_kernel_inside_is_crossing_parity.
+
+(* entry by entry: 1 EXACTLY for the points of odd crossing number, 0 exactly for the others *)
+Theorem C15_kernel_inside_one_iff_odd :
+  forall (nprint : Z) (atol xl0 xl1 yl0 yl1 : R) (poly pts : list (R * R)) (n : nat),
+       poly <> [] ->
+       PolygonProofs.good_poly atol poly ->
+       KernelPolygon.box_contains xl0 xl1 yl0 yl1 poly ->
+       (Datatypes.length pts < n)%nat ->
+       (Datatypes.length poly < n)%nat ->
+       exists res : list Z,
+         KernelPolygon.run_inside n nprint atol xl0 xl1 yl0 yl1 poly pts
+           (repeat 0 (Datatypes.length pts)) =
+         Ok
+           (RI 0,
+            [VArrF (RefinePolygon.flat pts); VArrF (RefinePolygon.flat poly); 
+             VArrF [xl0; xl1]; VArrF [yl0; yl1]; VArrI res]) /\
+         Forall2
+           (fun (p : R * R) (r : Z) =>
+            (r = 1 <-> Nat.odd (PolygonProofs.crossing_number poly p) = true) /\
+            (r = 0 <-> Nat.odd (PolygonProofs.crossing_number poly p) = false)) pts res.
+Proof. exact @KernelPolygon.kernel_inside_one_iff_odd. Qed.
+Print Assumptions C15_kernel_inside_one_iff_odd.
+
+(* with the box of the .pyx wrapper the array is what the model of gutils.points_inside_polygon returns *)
+Theorem C15_kernel_inside_with_wrapper_extent :
+  forall (nprint : Z) (atol xl0 xl1 yl0 yl1 : R) (poly pts : list (R * R)) (n : nat),
+       PolygonProofs.good_poly atol poly ->
+       extent RR poly = Some (xl0, xl1, (yl0, yl1)) ->
+       (Datatypes.length pts < n)%nat ->
+       (Datatypes.length poly < n)%nat ->
+       exists res : list Z,
+         KernelPolygon.run_inside n nprint atol xl0 xl1 yl0 yl1 poly pts
+           (repeat 0 (Datatypes.length pts)) =
+         Ok
+           (RI 0,
+            [VArrF (RefinePolygon.flat pts); VArrF (RefinePolygon.flat poly); 
+             VArrF [xl0; xl1]; VArrF [yl0; yl1]; VArrI res]) /\
+         points_inside_polygon RR atol pts poly None = Some res /\
+         res = map (PolygonProofs.parity_answer poly) pts.
+Proof. exact @KernelPolygon.kernel_inside_with_extent. Qed.
+Print Assumptions C15_kernel_inside_with_wrapper_extent.
+
+(* ray-free form: parity of the number of fan triangles (v0, vi, vi+1) strictly containing the point *)
+Theorem C15_kernel_inside_is_fan_parity :
+  forall (nprint : Z) (atol xl0 xl1 yl0 yl1 : R) (v0 : R * R) (l pts : list (R * R)) (n : nat),
+       PolygonProofs.good_poly atol (v0 :: l) ->
+       KernelPolygon.box_contains xl0 xl1 yl0 yl1 (v0 :: l) ->
+       Forall (fun p : R * R => Forall (PolygonTriProofs.off_lines v0 p) (path l)) pts ->
+       (Datatypes.length pts < n)%nat ->
+       (Datatypes.length (v0 :: l) < n)%nat ->
+       KernelPolygon.run_inside n nprint atol xl0 xl1 yl0 yl1 (v0 :: l) pts
+         (repeat 0 (Datatypes.length pts)) =
+       Ok
+         (RI 0,
+          [VArrF (RefinePolygon.flat pts); VArrF (RefinePolygon.flat (v0 :: l)); 
+           VArrF [xl0; xl1]; VArrF [yl0; yl1];
+           VArrI
+             (map (fun p : R * R => if Nat.odd (PolygonTriProofs.fan_count v0 l p) then 1 else 0)
+                pts)]).
+Proof. exact @KernelPolygon.kernel_inside_is_fan_parity. Qed.
+Print Assumptions C15_kernel_inside_is_fan_parity.
+
+(* non-vacuity: the L-shaped polygon, a point level with two vertices (1), a point of the notch (0), a point outside the box (0), executed on the translated kernel *)
+Theorem C15_kernel_inside_example :
+  KernelPolygon.run_inside 7 0 PIP_ATOL_DEFAULT_R 0 2 0 2 PolygonInvProofs.lshape
+         [((1 / 2)%R, 1%R); ((3 / 2)%R, (3 / 2)%R); ((-1)%R, 1%R)] [0; 0; 0] =
+       Ok
+         (RI 0,
+          [VArrF [(1 / 2)%R; 1%R; (3 / 2)%R; (3 / 2)%R; (-1)%R; 1%R];
+           VArrF (RefinePolygon.flat PolygonInvProofs.lshape); VArrF [0%R; 2%R]; 
+           VArrF [0%R; 2%R]; VArrI [1; 0; 0]]).
+Proof. exact @KernelPolygon.kernel_inside_example. Qed.
+Print Assumptions C15_kernel_inside_example.
